@@ -12,12 +12,12 @@ demos=$(ls $out/*_test.go 2>/dev/null)
 mkdir -p $wt/$dest $clean/$dest
 for d in $demos; do cp $d $wt/$dest/; cp $d $clean/$dest/; done
 (cd $wt && go build ./pkg/... ./cmd/... ./istio/... >/dev/null 2>&1); build=$?
-with=$(cd $wt && go test -vet=off -count=1 -run "$run" ./$dest/ 2>&1 | tail -40); echo "$with" | grep -qE "^(--- FAIL|FAIL|panic)" && wres=FAIL || wres=PASS
-without=$(cd $clean && go test -vet=off -count=1 -run "$run" ./$dest/ 2>&1 | tail -40); echo "$without" | grep -qE "^ok" && cres=PASS || cres=FAIL
+with=$(cd $wt && go test -vet=off -count=1 $SEED_TESTFLAGS -run "$run" ./$dest/ 2>&1 | tail -40); echo "$with" | grep -qE "^(--- FAIL|FAIL|panic)" && wres=FAIL || wres=PASS
+without=$(cd $clean && go test -vet=off -count=1 $SEED_TESTFLAGS -run "$run" ./$dest/ 2>&1 | tail -40); echo "$without" | grep -qE "^ok" && cres=PASS || cres=FAIL
 # existing tests of the touched packages, with the change (demo removed), compared with the clean tree
 for d in $demos; do rm -f $wt/$dest/$(basename $d) $clean/$dest/$(basename $d); done
-ex_with=$(cd $wt && go test -vet=off -count=1 $pkgs 2>&1 | grep -E "^(--- FAIL|ok|FAIL)" | sort | tr '\n' ';')
-ex_clean=$(cd $clean && go test -vet=off -count=1 $pkgs 2>&1 | grep -E "^(--- FAIL|ok|FAIL)" | sort | tr '\n' ';')
+ex_with=$(cd $wt && go test -vet=off -count=1 $SEED_TESTFLAGS $pkgs 2>&1 | grep -E "^(--- FAIL|ok|FAIL)" | sort | tr '\n' ';')
+ex_clean=$(cd $clean && go test -vet=off -count=1 $SEED_TESTFLAGS $pkgs 2>&1 | grep -E "^(--- FAIL|ok|FAIL)" | sort | tr '\n' ';')
 fails_with=$(echo "$ex_with" | tr ';' '\n' | grep -- "--- FAIL" | sort | tr '\n' ' ')
 fails_clean=$(echo "$ex_clean" | tr ';' '\n' | grep -- "--- FAIL" | sort | tr '\n' ' ')
 echo "CONFIRM $name: build=$build demo_with_change=$wres demo_on_clean=$cres"
